@@ -14,7 +14,12 @@ RULE = ("cases: (network, secret exponent, compression flag) round trips through
         "length 0..70, each through Key.from_sec, network.keys.public and sec_to_public_pair; out-of-range secret "
         "exponents and off-curve pairs on every network; (r, s) boundary products and random pairs through "
         "sigencode_der / sigdecode_der, candidate DER blobs (trailing bytes after and inside the sequence, mutated and "
-        "random strings of length 0..70). Distinct by (operation, network, input); non-trivial unless the blob is empty.")
+        "random strings of length 0..70). Public pairs (off-curve, on NIST P-256, genuine, the point at infinity) are handed "
+        "over in every spelling: plain tuple, tuple subclass, namedtuple, pycoin Point bound to the key's own curve, to another "
+        "curve over the same field (a = 0 / a = 3, b chosen so the pair lies on it), to secp256r1, and a list, through "
+        "keys.public(pair[, is_compressed=False]) and Key(public_pair=). Fresh key objects are queried for sec / hash160 / "
+        "address / wif (default, compressed, uncompressed) / public_pair / is_compressed / secret_exponent in a case-determined "
+        "shuffled order, every query twice. Distinct by (operation, network, input, spelling); non-trivial unless the blob is empty.")
 ASSUMPTIONS = [
     "references vmon/refs/sec.py, der.py, b58.py, ec.py are correct (self-tested on every run: published secp256k1 "
     "encodings and hash160 values, exhaustive blob enumeration on toy curves, X.690 hand vectors, exhaustive small-alphabet DER)",
@@ -28,6 +33,9 @@ ASSUMPTIONS = [
     "WIF = Base58Check(prefix || 32-byte big-endian exponent [|| 01 when compressed]); address = Base58Check(prefix || hash160); "
     "the per-network prefixes are read off the first key and required to be constant, not compared with a table",
     "off-curve pairs are drawn with 0 <= x, y < p (pairs outside the field are outside the quantifier)",
+    "an off-curve pair is an off-curve pair in whatever tuple type it arrives (incl. a pycoin Point of another curve): "
+    "InvalidPublicPairError is demanded; for a list (not a documented spelling) and for the point at infinity only refusal is demanded",
+    "answers of a key object do not depend on which other queries were made on it before",
     "networks GRS, GRSRT, TGRS need the absent groestlcoin_hash module and are reported as absent configurations",
 ]
 EXPLANATION = ("every pycoin call is compared with the reference value; decoders may accept a blob only if the strict "
@@ -250,7 +258,7 @@ def check_key(net, code, se, comp, rec, m, prefixes):
                 if name == "public_pair" and st == "ok":
                     got = tuple(got)
                 if st != "ok" or got != exp[(name, flag)]:
-                    rec.violation("key.history.%s_depends_on_earlier_queries" % name, dict(case, object=label, query=[name, flag]),
+                    rec.violation("key.history.%s_mismatch" % name, dict(case, object=label, query=[name, flag]),
                                   got, exp[(name, flag)])
                     break
     return {"net": code, "secret_exponent": se, "compressed": comp, "wif": observe(k.wif)[1], "sec": mine, "address": addr}
